@@ -477,4 +477,265 @@ theorem setOne_atMost (gen : Bool) (dev : Dev) (a : SetArg) (x : List Frag) (d :
       rw [hv] at this
       cases ss <;> simp only [R.out, Out.data] <;> first | exact this.2 | (left; rfl)
 
+/-! ## ModifyOne / RemoveOne -/
+
+theorem eraseChild_one (Q : JV → JV → Prop) (l : Loc) (d : JV) : AtMostOne Q d (eraseChild l d) := by
+  cases l with
+  | idx i => left; cases d <;> rfl
+  | key k =>
+    cases d with
+    | obj kvs => right; exact OneChange.eraseKey k kvs
+    | _ => left; rfl
+
+/-- the last fragment of a One form of `modify`: the modifier's first change is the only one -/
+theorem modSeq_inv (Q : JV → JV → Prop) (gen : Bool) (dev : Dev) (m : Modifier) (hm : ∀ c, (m c).2 = true → Q c (m c).1) (nd : Bool) :
+    ∀ (steps : List Loc) (d : JV), Inv Q d (modSeq gen dev true m nd steps d)
+  | [], d => inv_same Q d .go
+  | l :: ls, d => by
+    simp only [modSeq]
+    cases hc : child? l d with
+    | none => exact modSeq_inv Q gen dev m hm nd ls d
+    | some c =>
+      simp only
+      cases hap : ap gen dev m c with
+      | same => exact modSeq_inv Q gen dev m hm nd ls d
+      | bad => exact inv_same Q _ _
+      | new v =>
+        simp only [if_true]
+        refine ⟨fun h => (by cases h), ?_⟩
+        simp only
+        have hq : Q c v := by
+          simp only [ap] at hap
+          by_cases h2 : (m c).2 = true
+          · simp only [h2, if_true] at hap
+            split at hap
+            · cases hap
+            · injection hap with hap; rw [← hap]; exact hm c h2
+          · simp [h2] at hap
+        split
+        · exact eraseChild_one Q l d
+        · right; exact putChild_put Q l d c v hc hq
+
+theorem modLast_inv (Q : JV → JV → Prop) (gen : Bool) (dev : Dev) (m : Modifier) (hm : ∀ c, (m c).2 = true → Q c (m c).1)
+    (f : Frag) (d : JV) : Inv Q d (modLast gen dev true m f d) := by
+  simp only [modLast]
+  split <;> exact modSeq_inv Q _ dev m hm _ _ d
+
+/-- ModifyOne / RemoveOne: the invariant of the traversal -/
+theorem modF_inv (Q : JV → JV → Prop) (gen : Bool) (dev : Dev) (m : Modifier) (hm : ∀ c, (m c).2 = true → Q c (m c).1) :
+    ∀ (x : List Frag) (fl : Bool) (d : JV), Inv Q d (modF gen dev true m x fl d)
+  | [], _, d => inv_same Q d .go
+  | f :: rest, fl, d => by
+    have ih := modF_inv Q gen dev m hm rest
+    cases f with
+    | descent =>
+      simp only [modF]
+      by_cases h1 : rest.isEmpty = true
+      · simp only [h1, if_true]; exact inv_same Q d .go
+      · by_cases h2 : fl = true
+        · simp only [h1, h2, Bool.false_eq_true, if_false, if_true]; exact ih false d
+        · simp only [h1, h2, Bool.false_eq_true, if_false]; exact descGo_inv Q _ (fun c => ih false c) d
+    | child k =>
+      simp only [modF]
+      by_cases h1 : rest.isEmpty = true
+      · simp only [h1, if_true]; exact modLast_inv Q gen dev m hm _ d
+      · simp only [h1, Bool.false_eq_true, if_false]; exact visitD_inv Q _ _ _ ih _ _ _
+    | nth i =>
+      simp only [modF]
+      by_cases h1 : rest.isEmpty = true
+      · simp only [h1, if_true]; exact modLast_inv Q gen dev m hm _ d
+      · simp only [h1, Bool.false_eq_true, if_false]; exact visitD_inv Q _ _ _ ih _ _ _
+    | wild =>
+      simp only [modF]
+      by_cases h1 : rest.isEmpty = true
+      · simp only [h1, if_true]; exact modLast_inv Q gen dev m hm _ d
+      · simp only [h1, Bool.false_eq_true, if_false]; exact visitD_inv Q _ _ _ ih _ _ _
+    | union ms =>
+      simp only [modF]
+      by_cases h1 : rest.isEmpty = true
+      · simp only [h1, if_true]; exact modLast_inv Q gen dev m hm _ d
+      · simp only [h1, Bool.false_eq_true, if_false]; exact visitD_inv Q _ _ _ ih _ _ _
+    | slice s e t =>
+      simp only [modF]
+      by_cases h1 : rest.isEmpty = true
+      · simp only [h1, if_true]; exact modLast_inv Q gen dev m hm _ d
+      · simp only [h1, Bool.false_eq_true, if_false]; exact visitD_inv Q _ _ _ ih _ _ _
+    | filter p =>
+      simp only [modF]
+      by_cases h1 : rest.isEmpty = true
+      · simp only [h1, if_true]; exact modLast_inv Q gen dev m hm _ d
+      · simp only [h1, Bool.false_eq_true, if_false]; exact visitD_inv Q _ _ _ ih _ _ _
+
+/-- a change of the one-element wrapper is a change of its element -/
+theorem oneChange_wrap (Q : JV → JV → Prop) (d y : JV) (h : OneChange Q (.arr [d]) y) :
+    ∃ d', y = .arr [d'] ∧ (Q d d' ∨ OneChange Q d d') := by
+  cases h with
+  | putA i v xs c hx hq =>
+    cases i with
+    | zero => simp only [List.getElem?_cons_zero, Option.some.injEq] at hx; subst hx; exact ⟨v, by simp, Or.inl hq⟩
+    | succ n => simp at hx
+  | inA i xs c c' hx hc =>
+    cases i with
+    | zero => simp only [List.getElem?_cons_zero, Option.some.injEq] at hx; subst hx; exact ⟨c', by simp, Or.inr hc⟩
+    | succ n => simp at hx
+
+/-- what `modify` returns in a One form: the root as it was, the root replaced by a modifier result (the path `$`),
+or the root with one member of one container changed -/
+def RootOne (Q : JV → JV → Prop) (d d' : JV) : Prop := d' = d ∨ Q d d' ∨ OneChange Q d d'
+
+theorem modifyCore_one (Q : JV → JV → Prop) (gen : Bool) (dev : Dev) (m : Modifier) (hm : ∀ c, (m c).2 = true → Q c (m c).1)
+    (x : List Frag) (d : JV) : RootOne Q d ((modifyCore gen dev true m x d).data d) := by
+  simp only [modifyCore]
+  split
+  · left; rfl
+  · split
+    · left; rfl
+    · have hi := modF_inv Q (gen && !x.isEmpty) dev m hm (.nth 0 :: x) false (.arr [d])
+      have hun : RootOne Q d (unwrap d (modF (gen && !x.isEmpty) dev true m (.nth 0 :: x) false (.arr [d])).d) := by
+        rcases hi.2 with e | hc
+        · left; rw [e]; rfl
+        · obtain ⟨d', hy, hq⟩ := oneChange_wrap Q d _ hc
+          rw [hy]
+          right; exact hq
+      cases hst : (modF (gen && !x.isEmpty) dev true m (.nth 0 :: x) false (.arr [d])).st with
+      | go => simp only [Out.data]; exact hun
+      | stop => simp only [Out.data]; exact hun
+      | err e => simp only [Out.data]; exact hun
+      | fault => left; rfl
+      | stale => left; rfl
+
+/-- ModifyOne (every path, every deviation set, simple and gen data): whatever is reported, the returned tree (after an
+error: the data) is the root as it was, the modifier's result on the root (path `$`), or the root with ONE member of
+one container replaced by the modifier's result on it (in the reflect branch of a filter on a map: deleted) -/
+theorem modifyOne_atMost (gen : Bool) (dev : Dev) (m : Modifier) (x : List Frag) (d : JV) :
+    RootOne (fun c v => v = (m c).1) d ((modifyM gen dev true m x d).data d) :=
+  modifyCore_one (fun c v => v = (m c).1) gen dev m (fun _ _ => rfl) x d
+
+/-! ## the `removeOne` methods drop one member -/
+
+/-- the container has lost one member (all bindings of one name, or one element) — or is as it was -/
+def Drop (c v : JV) : Prop :=
+  (∃ k kvs, c = .obj kvs ∧ v = .obj (kvErase k kvs)) ∨ (∃ j xs, c = .arr xs ∧ v = .arr (xs.eraseIdx j))
+
+theorem dropFirstIdx_eraseIdx (p : Nat → Bool) : ∀ (xs : List JV) (o : Nat), ∃ j, dropFirstIdx p o xs = xs.eraseIdx j
+  | [], _ => ⟨0, rfl⟩
+  | x :: r, o => by
+    simp only [dropFirstIdx]
+    by_cases h : p o = true
+    · exact ⟨0, by simp [h]⟩
+    · obtain ⟨j, hj⟩ := dropFirstIdx_eraseIdx p r (o + 1)
+      exact ⟨j + 1, by simp [h, hj]⟩
+
+theorem dropLastIdx_eraseIdx (p : Nat → Bool) (xs : List JV) : ∃ j, dropLastIdx p xs = xs.eraseIdx j := by
+  simp only [dropLastIdx]
+  cases (List.range xs.length).reverse.find? p with
+  | some j => exact ⟨j, rfl⟩
+  | none => exact ⟨xs.length, (List.eraseIdx_of_length_le (Nat.le_refl _)).symm⟩
+
+theorem removeOneOf_drop (dev : Dev) (f : Frag) (m : Modifier) (h : removeOneOf dev f = some m) (c : JV) (hc : (m c).2 = true) :
+    Drop c (m c).1 := by
+  cases f with
+  | descent => simp [removeOneOf, removeAllOf] at h
+  | child k =>
+    simp only [removeOneOf, removeAllOf, Option.some.injEq] at h
+    subst h
+    cases c with
+    | obj kvs =>
+      simp only [remChild] at hc ⊢
+      split at hc
+      · rename_i hs; simp only [hs, if_true]; exact Or.inl ⟨k, kvs, rfl, rfl⟩
+      · simp at hc
+    | _ => simp [remChild] at hc
+  | nth i =>
+    simp only [removeOneOf, removeAllOf, Option.some.injEq] at h
+    subst h
+    cases c with
+    | arr xs =>
+      simp only [remNth] at hc ⊢
+      cases ha : absIdx xs.length i with
+      | some j => simp only [ha]; exact Or.inr ⟨j, xs, rfl, rfl⟩
+      | none => simp [ha] at hc
+    | _ => simp [remNth] at hc
+  | wild =>
+    simp only [removeOneOf, Option.some.injEq] at h
+    subst h
+    cases c with
+    | arr xs =>
+      cases xs with
+      | nil => simp [remWildOne] at hc
+      | cons x r => exact Or.inr ⟨0, x :: r, rfl, by simp [remWildOne]⟩
+    | obj kvs =>
+      simp only [remWildOne] at hc ⊢
+      cases hk : firstKey (fun _ => true) kvs with
+      | some k => simp only [hk]; exact Or.inl ⟨k, kvs, rfl, rfl⟩
+      | none => simp [hk] at hc
+    | _ => simp [remWildOne] at hc
+  | union ms =>
+    simp only [removeOneOf, Option.some.injEq] at h
+    subst h
+    cases c with
+    | arr xs =>
+      simp only [remUnionOne] at hc ⊢
+      split at hc
+      · rename_i hs
+        simp only [hs, if_true]
+        obtain ⟨j, hj⟩ := dropFirstIdx_eraseIdx (hasN dev xs.length ms) xs 0
+        exact Or.inr ⟨j, xs, rfl, by rw [hj]⟩
+      · simp at hc
+    | obj kvs =>
+      simp only [remUnionOne] at hc ⊢
+      cases hk : firstKey (hasKey ms) kvs with
+      | some k => simp only [hk]; exact Or.inl ⟨k, kvs, rfl, rfl⟩
+      | none => simp [hk] at hc
+    | _ => simp [remUnionOne] at hc
+  | slice s e t =>
+    simp only [removeOneOf, Option.some.injEq] at h
+    subst h
+    cases c with
+    | arr xs =>
+      simp only [remSliceOne] at hc ⊢
+      split at hc
+      · rename_i hs
+        simp only [hs, if_true]
+        by_cases hn : negStep t = true
+        · simp only [hn, if_true]
+          obtain ⟨j, hj⟩ := dropLastIdx_eraseIdx (remSel dev xs.length s e t) xs
+          exact Or.inr ⟨j, xs, rfl, by rw [hj]⟩
+        · simp only [hn, Bool.false_eq_true, if_false]
+          obtain ⟨j, hj⟩ := dropFirstIdx_eraseIdx (remSel dev xs.length s e t) xs 0
+          exact Or.inr ⟨j, xs, rfl, by rw [hj]⟩
+      · simp at hc
+    | _ => simp [remSliceOne] at hc
+  | filter p =>
+    simp only [removeOneOf, Option.some.injEq] at h
+    subst h
+    cases c with
+    | arr xs =>
+      simp only [remFilterOne] at hc ⊢
+      split at hc
+      · rename_i hs
+        simp only [hs, if_true]
+        obtain ⟨j, hj⟩ := dropFirstIdx_eraseIdx (fun i => p (xs.getD i .null)) xs 0
+        exact Or.inr ⟨j, xs, rfl, by rw [hj]⟩
+      · simp at hc
+    | obj kvs =>
+      simp only [remFilterOne] at hc ⊢
+      cases hk : firstKey (fun k => p (lookupD k kvs)) kvs with
+      | some k => simp only [hk]; exact Or.inl ⟨k, kvs, rfl, rfl⟩
+      | none => simp [hk] at hc
+    | _ => simp [remFilterOne] at hc
+
+/-- RemoveOne (every path, every deviation set, simple and gen data): whatever is reported, the returned tree is the root
+as it was, or the root with ONE container — the root itself or one member of one container — having lost one member -/
+theorem removeOne_atMost (gen : Bool) (dev : Dev) (x : List Frag) (d : JV) :
+    RootOne Drop d ((removeM gen dev true x d).data d) := by
+  simp only [removeM]
+  cases hl : x.getLast? with
+  | none => left; rfl
+  | some f =>
+    simp only [if_true]
+    cases hm : removeOneOf dev f with
+    | none => left; rfl
+    | some m => exact modifyCore_one Drop gen dev m (removeOneOf_drop dev f m hm) x.dropLast d
+
 end OjgVerif.JPMut
